@@ -80,8 +80,16 @@ IotaPart(d) ==
               data |-> [iota |-> n, order |-> <<"shuffle", seed>>],
               q |-> [n |-> qi, p |-> -5], conf |-> Conf(ki, 12), li |-> 12])
 
+\* the fixed-capacity variant with a capacity above the documented default (CAP = 4096 in the harness):
+\* samples of more than 1024 elements that fit the requested capacity
+BigCapPart(d) ==
+  \A n \in {1025, 2049, 4096} : \A ki \in 1..3 : \A qi \in {3, 16, 29} :
+     Emit([op |-> "quant.data", dfmt |-> "iota", entry |-> "max_n", ty |-> (IF n = 2049 THEN "f64" ELSE "i32"),
+           data |-> [iota |-> n, order |-> <<"shuffle", 4242 + n>>],
+           q |-> [n |-> qi, p |-> -5], conf |-> Conf(ki, 12), li |-> 12])
+
 Next == /\ ~done
         /\ done' = TRUE
-        /\ CASE Part = "ranks" -> RanksPart(done) [] Part = "perm" -> PermPart(done) [] Part = "shuffle" -> (ShufflePart(done) /\ IotaPart(done))
+        /\ CASE Part = "ranks" -> RanksPart(done) [] Part = "perm" -> PermPart(done) [] Part = "shuffle" -> (ShufflePart(done) /\ IotaPart(done) /\ BigCapPart(done))
 Spec == Init /\ [][Next]_done
 =============================================================================
